@@ -20,6 +20,7 @@ type CrashCase struct {
 	Target     Op          `json:"target"`
 	Inject     *Inject     `json:"inject,omitempty"`
 	Bulk       []int       `json:"bulk,omitempty"` // bulk world: epics, tasks per epic, tasks left open
+	Legacy     bool        `json:"legacy_name,omitempty"`
 	Violations []Violation `json:"violations,omitempty"`
 	Trace      []string    `json:"trace,omitempty"`
 }
@@ -136,6 +137,9 @@ func replayCrash(t *testing.T, path string, run func(w *World, pre *Snapshot, cc
 		}
 		pre = out.Post
 	}
+	if cc.Legacy {
+		schedPre{Legacy: true}.apply(w.Root)
+	}
 	oc := run(w, pre, cc)
 	for _, l := range oc.trace {
 		t.Log(l)
@@ -192,11 +196,16 @@ func runCrashTest(t *testing.T, prop, test, rule string, gen func(rt *rapid.T, w
 			stats.Abort("setup history hit a violation of another property")
 			return
 		}
+		legacy := pct(rt, 15, "legacy")
+		if legacy {
+			schedPre{Legacy: true}.apply(w.Root)
+			stats.Label("legacy_file_name")
+		}
 		target := gen(rt, w, pre)
 		target.N = len(setup)
 		oc := runAtomicityFor(prop, w, pre, target, nil)
 		if len(oc.viol) > 0 {
-			WriteReplay(replayPath, CrashCase{Property: prop, Engine: "CRASH", Test: test, Setup: setup, Target: target, Inject: oc.failing, Violations: oc.viol, Trace: oc.trace})
+			WriteReplay(replayPath, CrashCase{Property: prop, Engine: "CRASH", Test: test, Setup: setup, Target: target, Inject: oc.failing, Violations: oc.viol, Trace: oc.trace, Legacy: legacy})
 			rt.Fatalf("%s violated: %v", prop, oc.viol)
 		}
 		stats.Eval()
